@@ -35,13 +35,26 @@ pub fn dn_type(t: &DnTypeSpec) -> DnType {
 }
 
 pub fn dn_value(v: &DnValueSpec) -> Result<DnValue, rcgen::Error> {
+	use std::str::FromStr;
+	// the constructor a caller happens to use: TryFrom<&str>, TryFrom<String> or FromStr, by turns
+	let which = v.text.len() % 3;
+	macro_rules! make {
+		($t:ty) => {
+			match which {
+				0 => <$t>::try_from(v.text.as_str())?,
+				1 => <$t>::try_from(v.text.clone())?,
+				_ => <$t>::from_str(v.text.as_str())?,
+			}
+		};
+	}
 	Ok(match v.kind {
 		StrKind::Utf8 => DnValue::Utf8String(v.text.clone()),
-		StrKind::Printable => DnValue::PrintableString(PrintableString::try_from(v.text.as_str())?),
-		StrKind::Ia5 => DnValue::Ia5String(Ia5String::try_from(v.text.as_str())?),
-		StrKind::Teletex => DnValue::TeletexString(TeletexString::try_from(v.text.as_str())?),
-		StrKind::Bmp => DnValue::BmpString(BmpString::try_from(v.text.as_str())?),
-		StrKind::Universal => DnValue::UniversalString(UniversalString::try_from(v.text.as_str())?),
+		StrKind::Printable => DnValue::PrintableString(make!(PrintableString)),
+		StrKind::Ia5 => DnValue::Ia5String(make!(Ia5String)),
+		StrKind::Teletex => DnValue::TeletexString(make!(TeletexString)),
+		StrKind::Bmp => DnValue::BmpString(make!(BmpString)),
+		// (UniversalString has no FromStr)
+		StrKind::Universal => DnValue::UniversalString(if which == 1 { UniversalString::try_from(v.text.clone())? } else { UniversalString::try_from(v.text.as_str())? }),
 	})
 }
 
